@@ -386,6 +386,9 @@ func RunStress(seed int64, o StressOpts) *StressResult {
 		}
 		time.Sleep(300 * time.Microsecond)
 	}
+	// (a stop that was initiated just before its job ended may not have reached the runner yet: give it its chance before
+	// the log is read, so that "not yet" is not taken for "never")
+	sys.WaitCancelsDelivered(5 * time.Second)
 	final := sys.Snapshot(-1)
 	evs := sys.Log.Events()
 	out.Final, out.Log = final, evs
